@@ -449,3 +449,46 @@ def shrink_history(exe, engine, case, kind, budget=80):
                 stmts, best = cand, r
         i -= 1
     return prefix + " ; ".join(stmts), best[1], best[3], best[4]
+
+
+# ------------------------------------------------------------------ baseline of the crate's sources
+FILE_PROPS = {
+    "character_sets.rs": ["C20", "C11", "C12", "C03", "C13", "C14", "C02", "C01", "C19", "C05"],
+    "loop_ranges.rs": ["C15", "C01", "C03", "C19"],
+    "smt_strings.rs": ["C06", "C09", "C08", "C17"],
+    "matcher.rs": ["C06", "C10"],
+    "regular_expressions.rs": ["C01", "C03", "C16", "C07", "C05", "C18", "C19", "C02", "C10", "C17"],
+    "smt_regular_expressions.rs": ["C10", "C07", "C01", "C17"],
+    "store.rs": ["C07", "C01"],
+    "bfs_queues.rs": ["C19", "C02", "C14", "C05"],
+    "labeled_queues.rs": ["C05"],
+    "automata.rs": ["C13", "C14", "C04", "C02"],
+    "compact_tables.rs": ["C14", "C04"],
+    "minimizer.rs": ["C04"],
+    "partitions.rs": ["C04"],
+    "fast_sets.rs": ["C04"],
+    "errors.rs": [], "lib.rs": [],
+}
+PROP_FILES = {}
+for _f, _ps in FILE_PROPS.items():
+    for _p in _ps:
+        PROP_FILES.setdefault(_p, []).append(_f)
+
+
+def repo_hashes():
+    d = os.path.join(REPO, "src")
+    out = {}
+    for f in sorted(os.listdir(d)):
+        if f.endswith(".rs"):
+            out[f] = hashlib.sha256(open(os.path.join(d, f), "rb").read()).hexdigest()
+    return out
+
+
+def changed_repo_files():
+    """source files whose content differs from gen/baseline_hashes.json (written by bin/mkbaseline)"""
+    p = os.path.join(ROOT, "gen", "baseline_hashes.json")
+    if not os.path.exists(p):
+        return set()
+    base = json.load(open(p)).get("files", {})
+    cur = repo_hashes()
+    return set(f for f in set(base) | set(cur) if base.get(f) != cur.get(f))
